@@ -187,6 +187,39 @@ func (w *World) run(op *Op) (interface{}, error) {
 		}
 		return v.(*tensor.Dense), nil
 
+	case "SliceInto":
+		v, err := w.in(op, 0).SliceInto(w.rslot(op), w.sliceArg(op.I)...)
+		if err != nil {
+			return nil, err
+		}
+		return v.(*tensor.Dense), nil
+	case "ShapeCalc":
+		// the shape-only calculators take caller-owned slices too
+		a := w.in(op, 0)
+		h := uint64(fnvOff)
+		sh := a.Shape()
+		if s2, err := sh.S(w.sliceArg(op.I)...); err == nil {
+			h = hashInts(h, s2)
+		} else {
+			h = fnvAdd(h, 9)
+		}
+		if s3, fin, sz, err := sh.Repeat(op.N, w.arg("repeats", op.J)...); err == nil {
+			h = hashInts(hashInts(h, s3), fin)
+			h = fnvU64(h, uint64(sz))
+		} else {
+			h = fnvAdd(h, 8)
+		}
+		if s4, err := sh.Concat(op.N, sh, sh); err == nil {
+			h = hashInts(h, s4)
+		}
+		if d := sh.Dims(); d > 0 {
+			ap := a.Info()
+			if nap, ax, err := ap.T(w.arg("axes", op.J)...); err == nil {
+				h = hashInts(hashInts(h, nap.Shape()), ax)
+			}
+		}
+		return h, nil
+
 	// ------------------------------------------------------------------ transposes
 	case "T":
 		return nil, w.in(op, 0).T(w.arg("axes", op.I)...)
@@ -488,6 +521,49 @@ func (w *World) run(op *Op) (interface{}, error) {
 	case "SetMaskAt":
 		return nil, w.in(op, 0).SetMaskAt(op.N != 0, w.arg("coords", op.I)...)
 
+	case "MaskFromDense":
+		w.in(op, 0).MaskFromDense(denses(w, op, 1)...)
+		return nil, nil
+	case "ByIndices":
+		a := w.in(op, 0)
+		idx := tensor.New(tensor.WithBacking(w.arg("indices", op.I)))
+		return asDense(tensor.ByIndices(a, idx, op.N, w.funcOpts(op)...))
+	case "ByIndicesB":
+		a := w.in(op, 0)
+		idx := tensor.New(tensor.WithBacking(w.arg("indices", op.I)))
+		return asDense(tensor.ByIndicesB(a, w.in(op, 1), idx, op.N, w.funcOpts(op)...))
+	case "Diag":
+		return asDense(tensor.Diag(w.in(op, 0)))
+	case "FromMat64":
+		a := w.in(op, 0)
+		var opts []tensor.FuncOpt
+		if op.Mode == "unsafe" {
+			opts = append(opts, tensor.UseUnsafe())
+		}
+		m, err := tensor.ToMat64(a, opts...)
+		if err != nil {
+			return nil, err
+		}
+		return tensor.FromMat64(m, opts...), nil
+	case "NativeSelect":
+		a := w.in(op, 0)
+		var v interface{}
+		var err error
+		switch dtName(a) {
+		case "float64":
+			v, err = native.SelectF64(a, op.N)
+		case "float32":
+			v, err = native.SelectF32(a, op.N)
+		case "int":
+			v, err = native.SelectI(a, op.N)
+		default:
+			return nil, fmt.Errorf("no native select for %s", dtName(a))
+		}
+		if err != nil {
+			return nil, err
+		}
+		return fmt.Sprintf("%v", v), nil
+
 	// ------------------------------------------------------------------ conversions
 	case "Native":
 		return w.nativeConv(op)
@@ -585,6 +661,10 @@ func (w *World) construct(op *Op) (interface{}, error) {
 	var opts []tensor.ConsOpt
 	if w.eng != nil && op.N&4 != 0 {
 		opts = append(opts, tensor.WithEngine(*w.eng))
+	} else if op.N&8 != 0 && dt == "float64" {
+		opts = append(opts, tensor.WithEngine(tensor.Float64Engine{}))
+	} else if op.N&8 != 0 && dt == "float32" {
+		opts = append(opts, tensor.WithEngine(tensor.Float32Engine{}))
 	}
 	var mask []bool
 	if op.N&1 != 0 {
@@ -695,8 +775,10 @@ func (w *World) dests(op *Op) []int {
 		if op.Mode == "unsafe" {
 			d = append(d, op.In[0])
 		}
-	case "Copy", "CopyTo", "RepeatReuse":
+	case "Copy", "CopyTo", "RepeatReuse", "SliceInto":
 		d = append(d, op.R)
+	case "MaskFromDense":
+		d = append(d, op.In[0])
 	case "FMA":
 		d = append(d, op.In[len(op.In)-1])
 	}
